@@ -456,8 +456,8 @@ def classify(w):
 
 
 GENS = {
-    "runner": Gen(case_runner, 2500, 150000),
-    "single": Gen(case_single, 600, 40000),
+    "runner": Gen(case_runner, 2500, 300000),
+    "single": Gen(case_single, 600, 80000),
 }
 MIN_EVALS = {"call-trace": 1500, "stored-results": 5000, "repetition-counts": 1500,
              "skip-counts": 3000, "lookup-by-fixed-values": 2000, "single-variation": 500}
